@@ -449,3 +449,612 @@ def u_calc_2(U):
         U.post('tables-untouched', p, z3.BoolVal(p.heap[f2ref.oid].arr is F2C and set(p.deref(selfrec).fields) == {'f2', 'd', 'pair_num_to_num'}))
         U.canary('canary-sum-is-zero', list(p.pc) + [n >= 2], M.to_real(o.value) == 0, axioms=AXP)
     U.post('positions-come-from-pair_num_to_num', U.pre, z3.BoolVal(len(calls) >= 1))
+
+
+# ---- calc / __call__
+
+def model_value(f0, order, F1, W, ix, d):
+    """the fitted model at the multi-index ix: constant + per-mode terms (order >= 1) + pair terms (order >= 2)"""
+    return f0 + z3.If(order >= 1, X.asum(F1, ix, d), 0) + z3.If(order >= 2, X.p2out(W, ix, d, d), 0)
+
+
+def model_pre(order, DOM1, WD, ix, d):
+    return [z3.Implies(order >= 1, in_domain(DOM1, ix, d)), z3.Implies(order >= 2, z3.And(d >= 2, pairs_in_domain(WD, ix, d)))]
+
+
+def call_calc_2(W, WD, d, log=None):
+    """call-site contract of calc_2 (proved by unit anova_more.ANOVA.calc_2)"""
+    def h(ex, st, args, kwargs, node):
+        x = st.deref(args[0]) if len(args) == 1 and not kwargs else None
+        if not (isinstance(x, VArr) and x.ndim == 1 and x.tag == 'ivec' and x.t is not None):
+            raise M.Unsupported('calc_2 of something else than one integer multi-index')
+        n = Z(x.shape[0])
+        ex.oblige(st, 'call-pre', 'calc_2: at least two modes and a multi-index of length 1..d', z3.And(d >= 2, 1 <= n, n <= d), node)
+        ex.oblige(st, 'call-pre', 'calc_2: every pair of indices is a key of the table of its pair of modes', pairs_in_domain(WD, x.t, n), node)
+        if log is not None:
+            log.append(('calc_2', x))
+        return X.p2out(W, x.t, n, n)
+    return VFunc('ANOVA.calc_2', h)
+
+
+def _model_consts():
+    F1, DOM1 = z3.Const('f1', RAA), z3.Const('dom1', BAA)
+    W, WD = z3.Const('W', X.RAAAA), z3.Const('WD', z3.ArraySort(z3.IntSort(), z3.ArraySort(z3.IntSort(), BAA)))
+    return F1, DOM1, W, WD
+
+
+@unit('anova_more.ANOVA.calc', props=('C13',))
+def u_calc(U):
+    fn = U.func('anova', 'ANOVA.calc')
+    st = U.state()
+    d, order = z3.Ints('d order')
+    f0, ix = z3.Real('f0'), z3.Const('ix', T.IDX)
+    F1, DOM1, W, WD = _model_consts()
+    log = []
+    c0 = VFunc('ANOVA.calc_0', lambda ex, s, a, kw, node: (log.append(('calc_0', None)), f0)[1] if not a and not kw else (_ for _ in ()).throw(M.Unsupported('calc_0 takes no argument')))
+    fields = {'order': order, 'calc_0': c0, 'calc_1': call_calc_1(F1, DOM1, d, log), 'calc_2': call_calc_2(W, WD, d, log)}
+    selfrec = st.alloc(VRec(fields))
+    ex = U.executor(fn)
+    ex.anova = True
+    ivec = VArr((d,), ix, 'ivec', 'i')
+    st.vars.update(self=selfrec, i=ivec)
+    res = U.run(ex, st, pre=[d >= 1] + model_pre(order, DOM1, WD, ix, d))
+    U.assumed += ['ANOVA.calc_0 / calc_1 / calc_2 (units anova_more.ANOVA.calc_0, .calc_1, .calc_2)']
+    U.cover('precondition-satisfiable', U.pre)
+    for p, o in res:
+        if o.kind != 'return' or not M.is_num(o.value):
+            U.post('returns-a-number', p, False)
+            continue
+        U.post('constant-plus-per-mode-terms-(order>=1)-plus-pair-terms-(order>=2)', p, M.to_real(o.value) == model_value(f0, order, F1, W, ix, d))
+        U.post('object-untouched', p, z3.BoolVal(p.deref(selfrec).fields == fields))
+        U.canary('canary-value-is-the-constant-term', list(p.pc) + [order >= 1], M.to_real(o.value) == f0)
+    U.post('every-term-is-evaluated-at-the-given-multi-index', U.pre, z3.BoolVal(all(x is None or x is ivec for _, x in log) and len(log) >= 3))
+
+
+def call_calc(f0, order, F1, DOM1, W, WD, d, log=None):
+    """call-site contract of calc (proved by unit anova_more.ANOVA.calc)"""
+    def h(ex, st, args, kwargs, node):
+        x = st.deref(args[0]) if len(args) == 1 and not kwargs else None
+        if not (isinstance(x, VArr) and x.ndim == 1 and x.tag == 'ivec' and x.t is not None):
+            raise M.Unsupported('calc of something else than one integer multi-index')
+        ex.oblige(st, 'call-pre', 'calc: one index per mode', z3.And(d >= 1, Z(x.shape[0]) == d), node)
+        for n_, c in enumerate(model_pre(order, DOM1, WD, x.t, d)):
+            ex.oblige(st, 'call-pre', ('calc: every index is an observed value of its mode (order >= 1)', 'calc: every pair of indices is a key of its pair table (order >= 2)')[n_], c, node)
+        if log is not None:
+            log.append(x)
+        return model_value(f0, order, F1, W, x.t, d)
+    f = VFunc('ANOVA.calc', h)
+    f.real_of_argument = True
+    return f
+
+
+def _call_unit(U, ndim):
+    fn = U.func('anova', 'ANOVA.__call__')
+    st = U.state()
+    d, order, K = z3.Ints('d order K')
+    f0, ix = z3.Real('f0'), z3.Const('ix', T.IDX)
+    ROWS = z3.Const('rows', z3.ArraySort(z3.IntSort(), IA))
+    F1, DOM1, W, WD = _model_consts()
+    log = []
+    fields = {'dtype': M.TypeVal('int'), 'calc': call_calc(f0, order, F1, DOM1, W, WD, d, log)}
+    selfrec = st.alloc(VRec(fields))
+    ex = U.executor(fn, callees={'np.asanyarray': X.same_int_array, 'np.array': X.real_array})
+    ex.anova = True
+    s_ = z3.Int('s!r')
+    if ndim == 1:
+        I, pre = VArr((d,), ix, 'ivec', 'i'), [d >= 1] + model_pre(order, DOM1, WD, ix, d)
+    elif ndim == 2:
+        I = X.IRows((K, d), ROWS)
+        pre = [d >= 1, K >= 0] + [z3.ForAll([s_], z3.Implies(z3.And(0 <= s_, s_ < K), c), patterns=[ROWS[s_]]) for c in model_pre(order, DOM1, WD, ROWS[s_], d)]
+    else:
+        I, pre = VArr(tuple(z3.Ints('n0 n1 n2'))[:ndim] if ndim else (), None, None, 'i'), []
+    st.vars.update(self=selfrec, I=I)
+    res = U.run(ex, st, pre=pre)
+    U.assumed += ['ANOVA.calc (unit anova_more.ANOVA.calc)']
+    U.cover('precondition-satisfiable', U.pre)
+    sq = z3.Int('sq')
+    for p, o in res:
+        if ndim not in (1, 2):
+            U.raise_iff('ValueError-for-an-array-that-is-neither-one-multi-index-nor-a-batch', p, z3.BoolVal(o.kind == 'raise' and o.exc == 'ValueError' and not log))
+            continue
+        if o.kind != 'return':
+            U.raise_iff('accepts-a-multi-index-and-a-batch', p, False)
+            continue
+        v = p.deref(o.value)
+        if ndim == 1:
+            U.post('single-multi-index: the-model-value', p, M.to_real(v) == model_value(f0, order, F1, W, ix, d) if M.is_num(v) else z3.BoolVal(False))
+            U.canary('canary-value-is-the-constant-term', list(p.pc) + [order >= 1], M.to_real(v) == f0 if M.is_num(v) else z3.BoolVal(False))
+        else:
+            ok = isinstance(v, VArr) and v.ndim == 1 and v.tag == 'rvec' and v.t is not None
+            U.post('batch: a-1-D-float-array', p, z3.BoolVal(ok))
+            if ok:
+                U.post('batch: one-value-per-row', p, Z(v.shape[0]) == K)
+                U.post('batch: element-s-is-the-model-value-at-row-s', list(p.pc) + [0 <= sq, sq < K], v.t[sq] == model_value(f0, order, F1, W, ROWS[sq], d))
+                U.canary('canary-batch-of-constants', list(p.pc) + [0 <= sq, sq < K, order >= 1], v.t[sq] == f0)
+        U.post('object-untouched', p, z3.BoolVal(p.deref(selfrec).fields == fields))
+
+
+@unit('anova_more.ANOVA.__call__.single', props=('C13',))
+def u_call_1(U):
+    _call_unit(U, 1)
+
+
+@unit('anova_more.ANOVA.__call__.batch', props=('C13',))
+def u_call_2(U):
+    _call_unit(U, 2)
+
+
+@unit('anova_more.ANOVA.__call__.bad-ndim', props=('C13',))
+def u_call_3(U):
+    _call_unit(U, 3)
+    _call_unit(U, 0)
+
+
+# ----------------------------------------------------------------------------------------------
+# ANOVA.cores (dispatch) - control tier: which builder is called with which arguments, what is returned.  Whole tensors are tokens.
+#   * raises ValueError iff order < 1 (and then nothing is built);
+#   * cores_1 is called exactly once with (r, noise'), noise' = noise if rel_noise is None else rel_noise * max(|y_max|, |y_min|);
+#   * order == 1: the result of cores_1 is returned as it is (unit anova_more.ANOVA.cores_1.value: its value; anova.ANOVA.cores_1: its
+#     shape / pattern);
+#   * order >= 2: cores_2 is called once with (r, only_near) and the result is add_many([cores_1 result] + cores_2 result, r=r): first-order
+#     tensor first, then the pair tensors in storage order, the caller's rank cap and the default accuracy.  What add_many returns
+#     for lists of 2 / 3 tensors is the business of the units act_many.add_many.*; nothing is assumed about it here.
+
+def _tts(st, arr, n):
+    return st.alloc(VSeq(arr, n, lambda t: VSym(t, 'tt'), tag='tts'))
+
+
+def _cores_dispatch_unit(U, with_rel):
+    fn = U.func('anova', 'ANOVA.cores')
+    st = U.state()
+    order, r, n2 = z3.Ints('order r n2')
+    noise, ymax, ymin, rel = z3.Reals('noise y_max y_min rel_noise')
+    only_near = z3.Bool('only_near')
+    t1, tsum = z3.Ints('tt_first tt_sum')
+    C2 = z3.Const('tts2', IA)
+    def rec(s, key, item):
+        s.ghost[key] = s.ghost.get(key, []) + [item]          # per-path call log (the ghost state is copied at every fork)
+
+    def c1(ex, s, a, kw, node):
+        rec(s, 'c1', (list(a), dict(kw)))
+        return VSym(t1, 'tt')
+
+    def c2(ex, s, a, kw, node):
+        rec(s, 'c2', (list(a), dict(kw)))
+        return _tts(s, C2, n2)
+
+    def add_many(ex, s, a, kw, node):
+        rec(s, 'add', ([s.deref(x) for x in a], dict(kw)))
+        return VSym(tsum, 'tt')
+
+    fields = {'order': order, 'y_max': ymax, 'y_min': ymin, 'cores_1': VFunc('ANOVA.cores_1', c1), 'cores_2': VFunc('ANOVA.cores_2', c2)}
+    selfrec = st.alloc(VRec(fields))
+    ex = U.executor(fn, callees={'act_many.add_many': add_many})
+    ex.anova = True
+    st.vars.update(self=selfrec, r=r, noise=noise, only_near=only_near, rel_noise=VOpt(z3.BoolVal(False), rel) if with_rel else NONE)
+    res = U.run(ex, st, pre=[n2 >= 0])
+    U.cover('precondition-satisfiable', U.pre)
+    absr = lambda x: z3.If(x >= 0, x, -x)
+    want_noise = rel * z3.If(absr(ymin) > absr(ymax), absr(ymin), absr(ymax)) if with_rel else noise
+    kq = z3.Int('k!q')
+    for p, o in res:
+        g1, g2, ga = p.ghost.get('c1', []), p.ghost.get('c2', []), p.ghost.get('add', [])
+        if o.kind == 'raise':
+            U.raise_iff('ValueError-iff-order<1', p, z3.And(order < 1, z3.BoolVal(o.exc == 'ValueError')))
+            U.post('nothing-is-built-when-the-order-is-rejected', p, z3.BoolVal(not g1 and not g2 and not ga))
+            continue
+        U.raise_iff('accepts-every-order>=1', p, order >= 1)
+        v = p.deref(o.value)
+        U.post('returns-a-tensor', p, z3.BoolVal(isinstance(v, VSym)))
+        if isinstance(v, VSym):
+            U.post('order-1: the-first-order-tensor-itself; order>=2: the-sum-built-by-add_many', p, v.term == z3.If(order >= 2, tsum, t1))
+            U.canary('canary-always-the-first-order-tensor', p, v.term == t1)
+        U.post('object-untouched', p, z3.BoolVal(p.deref(selfrec).fields == fields))
+        b1 = bind_args('anova', 'ANOVA.cores_1', *g1[0]) if len(g1) == 1 else None
+        ok1 = b1 is not None and set(b1) == {'r', 'noise'} and all(M.is_num(x) for x in b1.values())
+        U.post('cores_1-called-exactly-once-with-rank-and-noise', p, z3.BoolVal(ok1))
+        if ok1:
+            U.post('cores_1-gets-the-rank-and-the-(relative)-noise', p, z3.And(Z(b1['r']) == r, M.to_real(b1['noise']) == want_noise))
+            U.canary('canary-noise-is-zero', p, M.to_real(b1['noise']) == 0)
+        U.post('cores_2-and-add_many-are-called-once-for-order>=2-and-not-at-all-for-order-1', p,
+               z3.And(z3.BoolVal(len(g2) == len(ga) and len(g2) <= 1), (order >= 2) == z3.BoolVal(len(g2) == 1)))
+        for a, kw in g2:
+            b2 = bind_args('anova', 'ANOVA.cores_2', a, kw)
+            okc = b2 is not None and set(b2) == {'r', 'only_near'} and M.is_num(b2['r']) and M.is_boolv(b2['only_near'])
+            U.post('cores_2-gets-the-rank-and-only_near', p, z3.And(Z(b2['r']) == r, Z(b2['only_near']) == only_near) if okc else z3.BoolVal(False))
+        for a, kw in ga:
+            ba = bind_args('act_many', 'add_many', a, kw, method=False)
+            okl = ba is not None and set(ba) == {'Y_many', 'r'} and isinstance(ba['Y_many'], VSeq) and ba['Y_many'].tag == 'tts' and M.is_num(ba['r'])
+            U.post('add_many-gets-one-list-of-tensors-and-only-the-rank-cap', p, z3.BoolVal(okl))
+            if okl:
+                L = ba['Y_many']
+                U.post('add_many: the-caller-s-rank-cap', p, Z(ba['r']) == r)
+                U.post('add_many: first-order-tensor-first-then-all-pair-tensors-in-order', list(p.pc) + [0 <= kq, kq < n2],
+                       z3.And(L.n == n2 + 1, L.arr[0] == t1, L.arr[kq + 1] == C2[kq]))
+
+
+@unit('anova_more.ANOVA.cores.dispatch', props=('C13',))
+def u_cores_dispatch(U):
+    _cores_dispatch_unit(U, False)
+
+
+@unit('anova_more.ANOVA.cores.dispatch.rel_noise', props=('C13',))
+def u_cores_dispatch_rel(U):
+    _cores_dispatch_unit(U, True)
+
+
+# ----------------------------------------------------------------------------------------------
+# ANOVA.__init__ (argument validation) and the wrapper anova.anova - control tier (C13; C10: the seed goes through _rand exactly once
+# and nowhere else).
+#   __init__: raises ValueError iff  order not in {1, 2}  or  (fpath is None and (I_trn is None or y_trn is None))  or
+#             (fpath is not None and (I_trn is not None or y_trn is not None));  otherwise self.order = order, self.rand is the
+#             generator that teneva._rand makes from the seed (called exactly once, with the seed), and the model comes from exactly one
+#             of build(I_trn, y_trn) (no fpath) / load(fpath); nothing is built or loaded when the arguments are rejected.
+#   anova:    ANOVA(I_trn, y_trn, order, seed, fpath) in this order, then .cores(r, noise) of that object, whose result is returned;
+#             only_near / rel_noise stay at their defaults.
+
+def bind_args(module, qual, a, kw, method=True):
+    """positional / keyword arguments of a call -> {parameter name: value} by the signature read from the source (so that
+    `f(x, k=v)` and `f(x, v)` are the same call); None if the call does not fit the signature."""
+    from ttvc import symex
+    params = symex.load_func(module, qual).params[1 if method else 0:]
+    if len(a) > len(params):
+        return None
+    out = dict(zip(params, a))
+    for k, v in kw.items():
+        if k in out or k not in params:
+            return None
+        out[k] = v
+    return out
+
+
+def _tok(name):
+    return VSym(z3.Const(name, z3.DeclareSort('PyObj')), name)
+
+
+def _rec(s, key, item):
+    s.ghost[key] = s.ghost.get(key, []) + [item]
+
+
+def _same_arg(v, opt):
+    """the value handed over is the (optional) parameter itself"""
+    return v is opt
+
+
+@unit('anova_more.ANOVA.__init__', props=('C13', 'C10'))
+def u_init(U):
+    fn = U.func('anova', 'ANOVA.__init__')
+    st = U.state()
+    order = z3.Int('order')
+    I_trn, y_trn = VOpt(z3.Bool('I_none'), _tok('I_trn')), VOpt(z3.Bool('y_none'), _tok('y_trn'))
+    seed, fpath = S.opt_int('seed'), S.opt_str('fpath')
+    gen = R.VGen('from-seed')
+
+    def rand(ex, s, a, kw, node):
+        _rec(s, 'rand', (list(a), dict(kw)))
+        M.used('teneva._rand(seed) -> numpy Generator derived from the seed (contract proved by unit utils._rand)')
+        return gen
+    build = VFunc('ANOVA.build', lambda ex, s, a, kw, node: (_rec(s, 'build', (list(a), dict(kw))), NONE)[1])
+    load = VFunc('ANOVA.load', lambda ex, s, a, kw, node: (_rec(s, 'load', (list(a), dict(kw))), NONE)[1])
+    selfrec = st.alloc(VRec({'build': build, 'load': load}))
+    ex = U.executor(fn, callees={'utils._rand': rand})
+    ex.anova = True
+    st.vars.update(self=selfrec, I_trn=I_trn, y_trn=y_trn, order=order, seed=seed, fpath=fpath)
+    res = U.run(ex, st)
+    U.assumed.append('utils._rand (unit utils._rand)')
+    bad = z3.Or(z3.Not(z3.Or(order == 1, order == 2)),
+                z3.And(fpath.isnone, z3.Or(I_trn.isnone, y_trn.isnone)),
+                z3.And(z3.Not(fpath.isnone), z3.Or(z3.Not(I_trn.isnone), z3.Not(y_trn.isnone))))
+    for p, o in res:
+        gr, gb, gl = p.ghost.get('rand', []), p.ghost.get('build', []), p.ghost.get('load', [])
+        U.post('seed-goes-through-_rand-exactly-once', p, z3.BoolVal(len(gr) == 1 and bind_args('utils', '_rand', *gr[0], method=False) == {'seed': seed}))
+        f = p.deref(selfrec).fields
+        if o.kind == 'raise':
+            U.raise_iff('ValueError-iff-the-arguments-are-invalid', p, z3.And(bad, z3.BoolVal(o.exc == 'ValueError')))
+            U.post('nothing-is-built-or-loaded-when-the-arguments-are-rejected', p, z3.BoolVal(not gb and not gl))
+            continue
+        U.raise_iff('accepts-exactly-the-valid-arguments', p, z3.Not(bad))
+        U.post('returns-None', p, z3.BoolVal(o.value is NONE))
+        U.post('generator-and-order-are-stored', p, z3.And(z3.BoolVal(f.get('rand') is gen and M.is_num(f.get('order')) and set(f) == {'build', 'load', 'rand', 'order'}),
+                                                        Z(f['order']) == order if M.is_num(f.get('order')) else False))
+        U.post('exactly-one-of-build-and-load', p, z3.BoolVal(len(gb) + len(gl) == 1))
+        U.post('build-iff-no-fpath', p, z3.BoolVal(len(gb) == 1) == fpath.isnone)
+        for a, kw in gb:
+            U.post('build-gets-the-samples-and-the-values', p, z3.BoolVal(bind_args('anova', 'ANOVA.build', a, kw) == {'I_trn': I_trn, 'y_trn': y_trn}))
+        for a, kw in gl:
+            U.post('load-gets-the-path', p, z3.BoolVal(bind_args('anova', 'ANOVA.load', a, kw) == {'fpath': fpath}))
+    U.canary('canary-never-accepts', [], bad)
+    U.canary('canary-always-accepts', [], z3.Not(bad))
+
+
+@unit('anova_more.anova', props=('C13', 'C10'))
+def u_anova(U):
+    fn = U.func('anova', 'anova')
+    st = U.state()
+    order, r = z3.Ints('order r')
+    noise = z3.Real('noise')
+    I_trn, y_trn, out = _tok('I_trn'), _tok('y_trn'), _tok('cores')
+    seed, fpath = S.opt_int('seed'), S.opt_str('fpath')
+
+    def cores(ex, s, a, kw, node):
+        _rec(s, 'cores', (list(a), dict(kw)))
+        return out
+
+    def ctor(ex, s, a, kw, node):
+        _rec(s, 'ctor', (list(a), dict(kw)))
+        return s.alloc(VRec({'cores': VFunc('ANOVA.cores', cores)}))
+
+    ex = U.executor(fn, callees={'ANOVA': ctor})
+    ex.anova = True
+    st.vars.update(I_trn=I_trn, y_trn=y_trn, r=r, order=order, noise=noise, seed=seed, fpath=fpath)
+    res = U.run(ex, st)
+    U.assumed.append('ANOVA.__init__ / ANOVA.cores (units anova_more.ANOVA.__init__, anova_more.ANOVA.cores.dispatch)')
+    for p, o in res:
+        gc, gk = p.ghost.get('ctor', []), p.ghost.get('cores', [])
+        bc = bind_args('anova', 'ANOVA.__init__', *gc[0]) if len(gc) == 1 else None
+        want = {'I_trn': I_trn, 'y_trn': y_trn, 'order': order, 'seed': seed, 'fpath': fpath}
+        U.post('one-ANOVA-object-from-(I_trn, y_trn, order, seed, fpath)', p, z3.BoolVal(bc is not None and set(bc) == set(want) and all(bc[k] is want[k] for k in want)))
+        bk = bind_args('anova', 'ANOVA.cores', *gk[0]) if len(gk) == 1 else None
+        okk = bk is not None and set(bk) == {'r', 'noise'} and all(M.is_num(x) for x in bk.values())
+        U.post('one-call-of-cores-with-rank-and-noise-only', p, z3.BoolVal(okk))
+        if okk:
+            U.post('cores-gets-the-rank-and-the-noise', p, z3.And(Z(bk['r']) == r, M.to_real(bk['noise']) == noise))
+            U.canary('canary-noise-is-zero', p, M.to_real(bk['noise']) == 0)
+        U.post('returns-what-cores-returns', p, z3.BoolVal(o.kind == 'return' and o.value is out))
+
+
+# ----------------------------------------------------------------------------------------------
+# anova_func.ANOVA_func.cores - control tier (C13, functional variant): how the coefficient tensor is assembled.
+#
+# self.coeffs = [c0, cf_1, .., cf_d] (constant term, then one vector of n-1 Chebyshev coefficients per mode; the fit itself is not
+# under contract).  Whole tensors are tokens; VALM(Y) is an ARBITRARY additive valuation of tensors (think: the value at a fixed
+# multi-index): add(A, B) has VALM(A) + VALM(B) (unit act_two.add.tt_tt: values add up), the tensor delta(shape, idx, v) with
+# idx = q e_i has dterm(i, q, v) and with idx = 0 has dzero(v) (unit tensors.delta: v at idx, 0 elsewhere) - the call-site
+# contract OBLIGES that the shape is [n] * d and that idx is exactly that unit vector / the zero vector, inside the shape.  Proved:
+#   * the tensor before truncation is the formal sum   c0 delta(0,..,0) + sum_i sum_p cf_i[p] delta((p+1) e_i),
+#         VALM(A) = dzero(c0) + fsum_out(C, L, d),
+#     every fitted coefficient exactly once, whatever its magnitude, at position p+1 of its own mode;
+#   * e is None: that tensor is returned as it is; otherwise the result is truncate(A, e) with the caller's accuracy and no rank cap.
+# NOT covered: coeffs (the ridge fits), the element-level meaning of the formal sum (units tensors.delta / act_two.add), truncate.
+
+VALM = z3.Function('valm', z3.IntSort(), z3.RealSort())
+
+
+@unit('anova_more.ANOVA_func.cores', props=('C13',))
+def u_func_cores(U):
+    fn = U.func('anova_func', 'ANOVA_func.cores')
+    st = U.state()
+    d, n = z3.Ints('d n')
+    c0 = z3.Real('c0')
+    C, L = z3.Const('cf', RAA), z3.Const('cflen', IA)
+    tail = st.alloc(VSeq(C, d, lambda t: V.RVec(L[t.arg(1)], t), tag='rvecs'))
+    cfs = st.alloc(X.CfsList(c0, tail))
+    selfrec = st.alloc(VRec({'coeffs': cfs, 'd': d, 'n': n}))
+    e = S.opt_real('e')
+    tq = z3.Int('t!q')
+
+    def delta(ex, s, a, kw, node):
+        b = bind_args('tensors', 'delta', a, kw, method=False)
+        if b is None or set(b) != {'n', 'i', 'v'}:
+            raise M.Unsupported('delta calling pattern')
+        shp, idx, v = s.deref(b['n']), s.deref(b['i']), ex.need_num(s, b['v'], node)
+        if not (isinstance(shp, VSeq) and shp.tag == 'int' and isinstance(idx, VArr) and idx.ndim == 1 and idx.tag == 'ivec' and idx.t is not None):
+            raise M.Unsupported('delta of something else than a list of mode sizes and an integer multi-index')
+        ex.oblige(s, 'call-pre', 'delta: d modes of size n each', z3.And(shp.n == d, z3.ForAll([tq], z3.Implies(z3.And(0 <= tq, tq < d), shp.arr[tq] == n))), node)
+        ex.oblige(s, 'call-pre', 'delta: one index per mode', Z(idx.shape[0]) == d, node)
+        D = ex.fresh_int('delta')
+        if 'i' in s.vars and 'pi' in s.vars and M.is_intsort(s.vars['i']) and M.is_intsort(s.vars['pi']):
+            i, q = Z(s.vars['i']), Z(s.vars['pi']) + 1
+            ex.oblige(s, 'call-pre', 'delta: the multi-index is (p+1) e_i - position p+1 of mode i, 0 in every other mode',
+                      z3.And(0 <= i, i < d, idx.t[i] == q, z3.ForAll([tq], z3.Implies(z3.And(0 <= tq, tq < d, tq != i), idx.t[tq] == 0))), node)
+            ex.oblige(s, 'call-pre', 'delta: the multi-index is inside the shape', z3.And(0 <= q, q < n), node)
+            s.assume(VALM(D) == X.dterm(i, q, M.to_real(v)))
+        else:
+            ex.oblige(s, 'call-pre', 'delta: the multi-index of the constant term is (0, .., 0)',
+                      z3.ForAll([tq], z3.Implies(z3.And(0 <= tq, tq < d), idx.t[tq] == 0)), node)
+            ex.oblige(s, 'call-pre', 'delta: the multi-index is inside the shape', n >= 1, node)
+            s.assume(VALM(D) == X.dzero(M.to_real(v)))
+        return VSym(D, 'tt')
+
+    def add(ex, s, a, kw, node):
+        if len(a) != 2 or kw or not all(isinstance(x, VSym) for x in a):
+            raise M.Unsupported('add of something else than two tensors')
+        R_ = ex.fresh_int('sum')
+        s.assume(VALM(R_) == VALM(a[0].term) + VALM(a[1].term))
+        return VSym(R_, 'tt')
+
+    def truncate(ex, s, a, kw, node):
+        b = bind_args('transformation', 'truncate', a, kw, method=False)
+        if b is None or not isinstance(b.get('Y'), VSym):
+            raise M.Unsupported('truncate calling pattern')
+        T_ = ex.fresh_int('trunc')
+        _rec(s, 'trunc', (b, T_))
+        return VSym(T_, 'tt')
+
+    def tok(v):
+        if not isinstance(v, VSym):
+            raise M.ContractMismatch('A is not a tensor')
+        return v.term
+
+    def the_idx(s):
+        idx = s.vars['idx']
+        if not (isinstance(idx, VArr) and idx.ndim == 1 and idx.tag == 'ivec' and idx.t is not None):
+            raise M.ContractMismatch('idx is not an integer vector')
+        return idx
+
+    def inv_outer(ex, s, j):
+        return [('formal-sum-of-the-processed-modes', VALM(tok(s.vars['A'])) == X.dzero(c0) + X.fsum_out(C, L, j)),
+                ('idx-has-one-entry-per-mode', Z(the_idx(s).shape[0]) == d)]
+
+    def inv_inner(ex, s, j):
+        i, idx = Z(s.vars['i']), the_idx(s)
+        return [('mode-in-range', z3.And(0 <= i, i < d)), ('idx-has-one-entry-per-mode', Z(idx.shape[0]) == d),
+                ('idx-is-zero-outside-the-current-mode', z3.ForAll([tq], z3.Implies(z3.And(0 <= tq, tq < d, tq != i), idx.t[tq] == 0), patterns=[idx.t[tq]])),
+                ('formal-sum-of-the-processed-coefficients', VALM(tok(s.vars['A'])) == X.dzero(c0) + X.fsum_out(C, L, i) + X.fsum_in(C, i, j))]
+
+    AXF = T.axioms('fsum')
+    ex = U.executor(fn, loops={0: {'inv': inv_outer}, 1: {'inv': inv_inner}}, axioms=AXF,
+                    callees={'tensors.delta': delta, 'act_two.add': add, 'transformation.truncate': truncate, 'np.zeros': X.int_zeros})
+    ex.anova = True
+    st.vars.update(self=selfrec, e=e)
+    kq = z3.Int('k!q')
+    pre = [d >= 2, n >= 2, z3.ForAll([kq], z3.Implies(z3.And(0 <= kq, kq < d), L[kq] == n - 1), patterns=[L[kq]])]
+    res = U.run(ex, st, pre=pre)
+    U.assumed += ['tensors.delta (unit tensors.delta)', 'act_two.add (unit act_two.add.tt_tt)', 'transformation.truncate (units transformation.truncate.*)']
+    U.cover('precondition-satisfiable', U.pre, axioms=AXF)
+    for p, o in res:
+        v = p.deref(o.value) if o.kind == 'return' else None
+        if not isinstance(v, VSym):
+            U.post('returns-a-tensor', p, False, axioms=AXF)
+            continue
+        gt = p.ghost.get('trunc', [])
+        U.post('truncation-iff-an-accuracy-is-given', p, z3.BoolVal(len(gt) == 1) == z3.Not(e.isnone), axioms=AXF)
+        U.post('at-most-one-truncation', p, z3.BoolVal(len(gt) <= 1))
+        if gt:
+            b, T_ = gt[0]
+            U.post('result-is-the-truncation-with-the-caller-s-accuracy-and-no-rank-cap', p,
+                   z3.And(z3.BoolVal(set(b) == {'Y', 'e'} and M.is_num(S.as_opt_num(b.get('e', NONE)).val)), v.term == T_, M.to_real(S.as_opt_num(b.get('e', 0)).val) == e.val), axioms=AXF)
+            A_ = b['Y'].term
+        else:
+            A_ = v.term
+        U.post('every-fitted-coefficient-enters-the-formal-sum-exactly-once-at-its-own-position', p, VALM(A_) == X.dzero(c0) + X.fsum_out(C, L, d), axioms=AXF)
+        U.canary('canary-only-the-constant-term', p, VALM(A_) == X.dzero(c0), axioms=AXF)
+        U.post('object-untouched', p, z3.BoolVal(p.deref(selfrec).fields == {'coeffs': cfs, 'd': d, 'n': n} and p.heap[tail.oid].arr is C))
+
+
+# ----------------------------------------------------------------------------------------------
+# ANOVA.build: the observed domain, then the model through build_0 / build_1 / build_2.
+#
+#   * self.d = number of columns of I_trn, self.dtype = its dtype, y_max / y_min are numbers (their values are not under contract);
+#   * for every mode k:  self.domain[k] = np.unique(I_trn[:, k]) = unq(ICOL[k], N) - the sorted DISTINCT observed values of column k
+#     (axiom group 'unique': strictly increasing, each occurs in the column, every entry of the column is among them) - and
+#     self.shapes[k] = its length;
+#   * then build_0 (always), build_1 iff order >= 1 (else f1 = []), build_2 iff order >= 2 (else f2 = []), each once, on the same data;
+#     the call-site contracts are the units anova_more.ANOVA.build_0 / build_1 - the precondition of build_1 ("every domain point
+#     occurs in its column") is PROVED here from the np.unique facts - so that afterwards  f0 = rmean(y, N)  and, for order >= 1,
+#     f1[k][x] = cmean(y, ICOL[k], x, N) - f0  with exactly the observed values of mode k as keys.  build_2 is not under contract
+#     (its result is an opaque attribute).
+
+class _Sel:
+    """k -> f(k): lets table_ok read the domain / the mode sizes from a list of coded vectors"""
+    def __init__(self, f):
+        self.f = f
+
+    def __getitem__(self, k):
+        return self.f(k)
+
+
+@unit('anova_more.ANOVA.build', props=('C13',))
+def u_build(U):
+    fn = U.func('anova', 'ANOVA.build')
+    st = U.state()
+    N, d, order = z3.Ints('N d order')
+    I_trn, ICOL, y_trn, y = _data(st, N, d)
+    kq, jq, xq = z3.Ints('k!q j!q x!q')
+    f2tok = _tok('f2')
+
+    def domain_of(s):
+        rec = s.deref(s.vars['self'])
+        dom, shp = s.deref(rec.fields.get('domain')), rec.fields.get('shapes')
+        if not (isinstance(dom, VSeq) and dom.tag == 'ivecs' and isinstance(shp, VArr) and shp.ndim == 1 and shp.tag == 'ivec' and shp.t is not None):
+            raise M.ContractMismatch('self.domain / self.shapes are not the list of integer vectors / the integer vector of their lengths')
+        return dom, shp
+
+    def dom_ok(dom, shp, upto):
+        c = dom.arr[kq]
+        return z3.ForAll([kq], z3.Implies(z3.And(0 <= kq, kq < upto),
+                                          z3.And(X.DARR(c) == X.unq(ICOL[kq], N), X.DLEN(c) == X.unqlen(ICOL[kq], N), shp.t[kq] == X.unqlen(ICOL[kq], N))),
+                         patterns=[dom.arr[kq], shp.t[kq]])
+
+    def inv(ex, s, j):
+        dom, shp = domain_of(s)
+        return [('one-domain-per-processed-mode', dom.n == j), ('one-size-per-mode', Z(shp.shape[0]) == d),
+                ('domain-is-the-sorted-distinct-values-of-the-column-and-shapes-its-length', dom_ok(dom, shp, j))]
+
+    def hook(ex, h, pre_, j):
+        X.havoc_attr(ex, h, 'self', 'domain')
+        X.havoc_attr(ex, h, 'self', 'shapes')
+
+    def same_data(a, kw, name):
+        b = bind_args('anova', 'ANOVA.' + name, a, kw)
+        return b is not None and set(b) == {'I_trn', 'y_trn'} and b['I_trn'] is I_trn and b['y_trn'] is y_trn
+
+    def build_0(ex, s, a, kw, node):
+        _rec(s, 'b0', same_data(a, kw, 'build_0'))
+        ex.oblige(s, 'call-pre', 'build_0: at least one sample', N >= 1, node)
+        s.deref(s.vars['self']).fields['f0'] = X.rmean(y, N)
+        return NONE
+
+    def build_1(ex, s, a, kw, node):
+        _rec(s, 'b1', same_data(a, kw, 'build_1'))
+        rec = s.deref(s.vars['self'])
+        dom, shp = domain_of(s)
+        if not M.is_num(rec.fields.get('f0')):           # AttributeError in build_1 (it reads self.f0)
+            ex.oblige(s, 'call-pre', 'build_1: the constant term is set before (self.f0 is read)', False, node)
+            rec.fields['f0'] = ex.fresh_real('undef')
+        ex.oblige(s, 'call-pre', 'build_1: samples, one domain per mode', z3.And(N >= 1, d >= 1, dom.n == d), node)
+        ex.oblige(s, 'call-pre', 'build_1: domain lengths are non-negative', z3.ForAll([kq], z3.Implies(z3.And(0 <= kq, kq < d), X.DLEN(dom.arr[kq]) >= 0)), node)
+        ex.oblige(s, 'call-pre', 'build_1: every domain point occurs in its column',
+                  z3.ForAll([kq, jq], z3.Implies(z3.And(0 <= kq, kq < d, 0 <= jq, jq < X.DLEN(dom.arr[kq])), X.ccnt(ICOL[kq], X.DARR(dom.arr[kq])[jq], N) >= 1)), node)
+        F = ex.fresh('f1', IA)
+        rec.fields['f1'] = X.table_seq(ex, s, F, d)
+        DMs, shs = _Sel(lambda k: X.DARR(dom.arr[k])), _Sel(lambda k: X.DLEN(dom.arr[k]))
+        a_, b_, j_, x_ = table_ok(F[kq], kq, DMs, shs, ICOL, y, N, M.to_real(rec.fields['f0']))
+        rng = z3.And(0 <= kq, kq < d)
+        s.assume(z3.ForAll([kq, j_], z3.Implies(rng, a_), patterns=[z3.MultiPattern(F[kq], X.DARR(dom.arr[kq])[j_])]),
+                 z3.ForAll([kq, x_], z3.Implies(rng, b_), patterns=[X.TDOM(F[kq])[x_], X.TVAL(F[kq])[x_]]))
+        return NONE
+
+    def build_2(ex, s, a, kw, node):
+        _rec(s, 'b2', same_data(a, kw, 'build_2'))
+        s.deref(s.vars['self']).fields['f2'] = f2tok
+        return NONE
+
+    methods = {'build_0': VFunc('ANOVA.build_0', build_0), 'build_1': VFunc('ANOVA.build_1', build_1), 'build_2': VFunc('ANOVA.build_2', build_2)}
+    selfrec = st.alloc(VRec(dict(methods, order=order)))
+    AXU = T.axioms('unique')
+    ex = U.executor(fn, loops={0: {'inv': inv, 'havoc_hook': hook}}, axioms=AXU,
+                    callees={'np.asanyarray': X.same_array, 'np.unique': X.np_unique, 'np.zeros': X.int_zeros},
+                    type_hints={'self.domain': lambda ex_, s_: X.ivec_seq(ex_, s_)})
+    ex.anova, ex.attr_havoc = True, {'self.domain', 'self.shapes'}
+    ex.mode = 'ematch'
+    st.vars.update(self=selfrec, I_trn=I_trn, y_trn=y_trn)
+    res = U.run(ex, st, pre=[N >= 1, d >= 1])
+    U.assumed += ['ANOVA.build_0 / build_1 (units anova_more.ANOVA.build_0, anova_more.ANOVA.build_1)']
+    U.cover('precondition-satisfiable', U.pre, axioms=AXU)
+    kk, jj, xx, aa, bb = z3.Ints('kk jj xx aa bb')
+    for p, o in res:
+        if o.kind != 'return':
+            U.post('no-exception', p, False, axioms=AXU, mode='ematch')
+            continue
+        f = p.deref(selfrec).fields
+        dom, shp = domain_of(p)
+        ctx = list(p.pc) + [0 <= kk, kk < d]
+        pts, ln = X.DARR(dom.arr[kk]), X.DLEN(dom.arr[kk])
+        U.post('d-dtype-and-value-range-are-set', p, z3.And(z3.BoolVal(isinstance(f.get('dtype'), M.TypeVal) and f['dtype'].name == 'int' and M.is_num(f.get('y_max'))
+                                                                     and M.is_num(f.get('y_min')) and M.is_num(f.get('d'))), Z(f['d']) == d if M.is_num(f.get('d')) else False), axioms=AXU, mode='ematch')
+        U.post('one-domain-and-one-size-per-mode', p, z3.And(dom.n == d, Z(shp.shape[0]) == d), axioms=AXU, mode='ematch')
+        U.post('domain-of-a-mode-is-np.unique-of-its-column-and-shapes-holds-its-length', ctx,
+               z3.And(pts == X.unq(ICOL[kk], N), ln == X.unqlen(ICOL[kk], N), shp.t[kk] == ln), axioms=AXU, mode='ematch')
+        U.post('domain-points-are-strictly-increasing-(distinct)', ctx + [0 <= aa, aa < bb, bb < ln], pts[aa] < pts[bb], axioms=AXU, mode='ematch')
+        U.post('every-domain-point-occurs-in-its-column', ctx + [0 <= jj, jj < ln], X.ccnt(ICOL[kk], pts[jj], N) >= 1, axioms=AXU, mode='ematch')
+        U.post('every-entry-of-the-column-is-a-domain-point', ctx + [0 <= jj, jj < N],
+               z3.And(0 <= X.upos(ICOL[kk], N, jj), X.upos(ICOL[kk], N, jj) < ln, pts[X.upos(ICOL[kk], N, jj)] == ICOL[kk][jj]), axioms=AXU, mode='ematch')
+        U.post('between-one-and-N-points-per-mode', ctx, z3.And(1 <= ln, ln <= N), axioms=AXU, mode='ematch')
+        U.post('constant-term-is-the-sample-mean-(build_0-once-on-the-data)', p, z3.And(z3.BoolVal(p.ghost.get('b0') == [True] and M.is_num(f.get('f0'))),
+                                                                                   M.to_real(f['f0']) == X.rmean(y, N) if M.is_num(f.get('f0')) else False), axioms=AXU, mode='ematch')
+        b1, b2 = p.ghost.get('b1', []), p.ghost.get('b2', [])
+        U.post('build_1-once-on-the-data-iff-order>=1-else-no-first-order-tables', p,
+               z3.And(z3.BoolVal(b1 in ([], [True])), (order >= 1) == z3.BoolVal(b1 == [True]),
+                      z3.BoolVal(b1 == [True] or (isinstance(p.deref(f.get('f1')), VList) and not p.deref(f['f1']).items))), axioms=AXU, mode='ematch')
+        U.post('build_2-once-on-the-data-iff-order>=2-else-no-pair-tables', p,
+               z3.And(z3.BoolVal(b2 in ([], [True])), (order >= 2) == z3.BoolVal(b2 == [True]),
+                      z3.BoolVal((b2 == [True] and f.get('f2') is f2tok) or (isinstance(p.deref(f.get('f2')), VList) and not p.deref(f['f2']).items))), axioms=AXU, mode='ematch')
+        if b1 == [True]:
+            F = p.deref(f['f1'])
+            DMs, shs = _Sel(lambda k: X.DARR(dom.arr[k])), _Sel(lambda k: X.DLEN(dom.arr[k]))
+            a_, b_, j_, x_ = table_ok(F.arr[kk], kk, DMs, shs, ICOL, y, N, X.rmean(y, N))
+            U.post('order>=1: every-observed-value-of-a-mode-is-a-key-of-its-table', ctx, z3.substitute(a_, (j_, jj)), axioms=AXU, mode='ematch')
+            U.post('order>=1: every-key-is-an-observed-value-and-holds-the-conditional-mean-minus-the-sample-mean', ctx, z3.substitute(b_, (x_, xx)), axioms=AXU, mode='ematch')
+        U.post('methods-untouched', p, z3.BoolVal(all(f.get(k) is v for k, v in methods.items())))
+        U.canary('canary-empty-domains', ctx, ln == 0, axioms=AXU)
